@@ -52,9 +52,11 @@ Fixpoint openings (gl : bool) (row : bool) (jobs : list (Z * (Z * Z))) (g : grid
       bind (rints gl (lo + 1) (hi - 1)) (fun v =>
       bind (lift (grid_set g (if row then (c, v) else (v, c)) Floor)) (fun g' => openings gl row t g'))
   end.
+(* np.any(np.diff(splits) < 2): two consecutive walls with no cell between them *)
+Fixpoint gapsb (l : list Z) : bool := match l with a :: ((b :: _) as t) => (a + 2 <=? b) && gapsb t | _ => true end.
 Definition rooms_grid (h w : Z) (ysp xsp : list Z) (gl : bool) : Rand grid :=
-  if negb (nodupb ysp) then Raise ValueError else
-  if negb (nodupb xsp) then Raise ValueError else
+  if negb (gapsb ysp) then Raise ValueError else
+  if negb (gapsb xsp) then Raise ValueError else
   bind (lift (draw_room_grid (grid_from_shape h w Floor) ysp xsp Wall)) (fun g1 =>
   bind (openings gl true (flat_map (fun y => map (fun pr => (y, pr)) (pairwise xsp)) (inner ysp)) g1) (fun g2 =>
   openings gl false (flat_map (fun pr => map (fun x => (x, pr)) (inner xsp)) (pairwise ysp)) g2)).
